@@ -26,7 +26,20 @@ def mat(out):
 
 def wrap(cirq, rng, op):
     """random wrapper composition that must preserve the linear map (returns op', description)"""
-    k = rng.randrange(8)
+    k = rng.randrange(9)
+    if k == 8:
+        # a sub-circuit operation re-mapped three times (a rotation of its qubits, out to spare qubits, and back): the maps compose to
+        # the identity only when each new map is applied after the ones already there
+        qs = list(op.qubits)
+        if len(qs) < 2 or any(q.dimension != 2 for q in qs):
+            return op, 'none'
+        co = cirq.CircuitOperation(cirq.FrozenCircuit(op))
+        spare = [cirq.NamedQubit(f'spare{j}') for j in range(len(qs))]
+        rot = qs[1:] + qs[:1]
+        co = co.with_qubit_mapping(dict(zip(qs, rot)))
+        co = co.with_qubit_mapping(dict(zip(rot, spare)))
+        co = co.with_qubit_mapping(dict(zip(spare, qs)))
+        return co, 'circuit-op-remapped'
     if k == 7:
         # phases on no qubits that cancel inside a sub-circuit
         return cirq.CircuitOperation(cirq.FrozenCircuit(cirq.global_phase_operation(1j), op, cirq.global_phase_operation(-1j))), 'circuit-op-phases'
@@ -137,7 +150,10 @@ def run(ctx: common.Run):
     subs = [cirq.X**0.5, cirq.Y**0.3, cirq.Z**0.25, cirq.X, cirq.CZ**0.3]
     cv_cases = []
     for j, pt in enumerate(pats):
-        for sub in (subs[j % len(subs)], subs[(j + 2) % len(subs)]):
+        # (a sub-gate with a global shift, or a bare global phase, becomes a phase on the controls: selected by the same control values)
+        shifted = [cirq.XPowGate(exponent=0.5, global_shift=-0.5), cirq.ZPowGate(exponent=0.3, global_shift=0.25), cirq.GlobalPhaseGate(np.exp(0.4j)),
+                   cirq.CZPowGate(exponent=0.5, global_shift=0.3)]
+        for sub in (subs[j % len(subs)], subs[(j + 2) % len(subs)], shifted[j % len(shifted)], shifted[(j + 1) % len(shifted)]):
             g_cv = cirq.ControlledGate(sub, control_values=pt)
             cv_cases.append((g_cv, list(cirq.LineQubit.range(cirq.num_qubits(g_cv)))))
     for pt in ([(0, 2), 1], [(1, 2), (0, 1)], [2, (0, 1, 2)], [(0, 1, 2), 0]):
